@@ -34,7 +34,56 @@ Qed.
 Lemma pv_eq_zero v : pv_eq v (PInt 0) = pyval_is_zero v.
 Proof. destruct v; try reflexivity. cbn. apply float_eq_int_0. Qed.
 
-Ltac kcbn := cbn [bind kwin kwget String.eqb Ascii.eqb Bool.eqb negb andb orb Z.eqb Pos.eqb fst snd
+Lemma beq_sym a b : beq a b = beq b a.
+Proof.
+  destruct (beq a b) eqn:E1, (beq b a) eqn:E2; try reflexivity.
+  - apply beq_eq in E1. subst. now rewrite beq_refl in E2.
+  - apply beq_eq in E2. subst. now rewrite beq_refl in E1.
+Qed.
+
+(* negative slice bounds written out: l[a:-k] = l[a:len-k], l[-k:] = l[len-k:len]  (k = 1, 2: for larger k the two
+   differ on lists shorter than k) *)
+Lemma norm_idx_neg len k : 0 < k <= 2 -> 0 <= len -> norm_idx len (- k) = norm_idx len (len - k).
+Proof.
+  intros Hk Hl. unfold norm_idx.
+  destruct (- k <? 0) eqn:E1; [|lia]. destruct (len - k <? 0) eqn:E2;
+    repeat match goal with |- context [?a <? ?b] => destruct (a <? b) eqn:? end; lia.
+Qed.
+
+Lemma norm_idx_range len i : 0 <= len -> 0 <= norm_idx len i <= len.
+Proof.
+  intros Hl. unfold norm_idx. destruct (i <? 0) eqn:E1;
+    repeat match goal with |- context [?a <? ?b] => destruct (a <? b) eqn:? end; lia.
+Qed.
+
+Lemma norm_idx_len len : 0 <= len -> norm_idx len len = len.
+Proof.
+  intros Hl. unfold norm_idx. destruct (len <? 0) eqn:E1; [lia|].
+  repeat match goal with |- context [?a <? ?b] => destruct (a <? b) eqn:? end; lia.
+Qed.
+
+Lemma pyslice_neg_hi {A} (l : list A) a k : 0 < k <= 2 ->
+  pyslice l a (- k) = pyslice l a (Z.of_nat (length l) - k).
+Proof. intros Hk. unfold pyslice. cbv zeta. rewrite norm_idx_neg by lia. reflexivity. Qed.
+
+Lemma pyslice_from_neg {A} (l : list A) k : 0 < k <= 2 ->
+  pyslice_from l (- k) = pyslice l (Z.of_nat (length l) - k) (Z.of_nat (length l)).
+Proof.
+  intros Hk. unfold pyslice_from, pyslice. cbv zeta. rewrite norm_idx_neg by lia.
+  set (a := Z.to_nat (norm_idx (Z.of_nat (length l)) (Z.of_nat (length l) - k))).
+  symmetry. apply firstn_all2. rewrite skipn_length.
+  pose proof (norm_idx_len (Z.of_nat (length l)) ltac:(lia)).
+  pose proof (norm_idx_range (Z.of_nat (length l)) (Z.of_nat (length l) - k) ltac:(lia)).
+  lia.
+Qed.
+
+Lemma truth_gbool b : g_truth (gbool b) = b.
+Proof. destruct b; reflexivity. Qed.
+
+Ltac kcbn0 := cbn [bind kwin kwget String.eqb Ascii.eqb Bool.eqb negb andb orb Z.eqb Pos.eqb fst snd
+                   g_eq g_len g_slice g_add g_val2bytes g_is_none gint gbytes gnone pv_eq as_def].
+Ltac kcbn := kcbn0; rewrite ?truth_gbool;
+             cbn [bind kwin kwget String.eqb Ascii.eqb Bool.eqb negb andb orb Z.eqb Pos.eqb fst snd
                   g_eq g_len g_slice g_add g_val2bytes g_is_none g_truth gint gbytes gbool gnone pv_eq as_def].
 
 Ltac step :=
@@ -86,6 +135,7 @@ Ltac atoms :=
          | |- context [N.testbit ?x ?y] => destruct (N.testbit x y) eqn:?
          | |- context [Z.eqb ?x ?y] => destruct (Z.eqb x y) eqn:?
          | |- context [Z.leb ?x ?y] => destruct (Z.leb x y) eqn:?
+         | |- context [Z.ltb ?x ?y] => destruct (Z.ltb x y) eqn:?
          | |- context [N.eqb ?x ?y] => destruct (N.eqb x y) eqn:?
          | |- context [N.ltb ?x ?y] => destruct (N.ltb x y) eqn:?
          end.
@@ -100,8 +150,6 @@ Qed.
 Lemma bytes2val_U2 b : bytes2val b (T 85%N (Some 2%nat)) = Ok (PInt (Z.of_N (uint_of_le b))).
 Proof. reflexivity. Qed.
 
-Lemma truth_gbool b : g_truth (gbool b) = b.
-Proof. destruct b; reflexivity. Qed.
 
 (* ---- UBXMessage methods: attributes of self that are read are inputs; the result is
         Tup [return value; Tup [attributes assigned]; Tup [calls on super()]] ---- *)
